@@ -5,6 +5,7 @@ from django.template import Context, Template
 
 from django_components import Component, ComponentRegistry, NotRegistered, types
 from django_components.component_registry import all_registries
+from django_components.perfutil.component import component_context_cache
 
 
 class DynamicComponent(Component):
@@ -127,9 +128,13 @@ class DynamicComponent(Component):
         args = context["args"]
         kwargs = context["kwargs"]
 
+        # NOTE: This hook runs when the component is actually rendered, which may be long after
+        # the `{% component %}` tag was visited. By then `self.outer_context` may have left the scopes
+        # (`{% with %}`, `{% for %}`, slot fills) it was in at that time, so we use the snapshot
+        # that was made when the tag was visited.
         comp = comp_class(
             registered_name=self.registered_name,
-            outer_context=self.outer_context,
+            outer_context=component_context_cache[self.id].outer_context,
             registry=self.registry,
         )
         output = comp.render(
